@@ -22,8 +22,8 @@ def units(lines):
     return out
 
 
-DEFS = {"ssink", "ssinkc", "csink", "const", "never", "map", "mapto", "filter", "filteropt", "merge", "orelse", "snapshot", "snapshot1", "snapshotn", "gate",
-        "hold", "holdlazy", "once", "updates", "value", "mapc", "lift2", "liftn", "accum", "collect", "defer", "split", "switchs", "switchc", "router", "route",
+DEFS = {"ssink", "ssinkc", "csink", "const", "never", "map", "mapto", "filter", "filteropt", "merge", "orelse", "snapshot", "snapshot1", "snapshotn", "snaplazy", "gate",
+        "hold", "holdlazy", "once", "updates", "value", "mapc", "lift2", "liftn", "accum", "collect", "defer", "split", "switchs", "switchc", "switchlate", "switchlatec", "router", "route",
         "mklazy", "sloop", "cloop", "sloopclose", "cloopclose", "lazy", "accumlazy", "collectlazy"}
 
 
@@ -93,11 +93,11 @@ def check(tier, seed):
     rng = random.Random(seed * 97 + 9)
     n = 600 if tier == "quick" else 15000
     prof = apigen.profile(n_defs=(5, 12), n_listen=(2, 5), samples=0.4, max_defer=1, unlisten=0.0, obs=0.0,
-                          weights=dict(defer=1.5, switchs=1.5, switchc=0.7, lift2=2, accum=1.5, hold=3, merge=5, once=1, sloop=0.5, cloop=0.5, router=0.5))
+                          weights=dict(defer=1.5, switchs=1.5, switchc=0.7, switchlate=1.5, switchlatec=1.5, lift2=2, accum=1.5, hold=3, merge=5, once=1, sloop=0.5, cloop=0.5, router=0.5))
     # one or two sinks feeding selectors and candidate cells at different depths: every send switches and updates
     # the old and the new inner cell at once
     fan = apigen.profile(n_defs=(8, 16), n_listen=(2, 4), samples=0.5, unlisten=0.0, obs=0.0, n_txn=(4, 10),
-                         weights=dict(ssink=0.6, ssinkc=0, csink=0.3, const=0, never=0, map=7, filter=1.5, hold=6, switchc=4, switchs=1.5, mapc=1.5, merge=1,
+                         weights=dict(ssink=0.6, ssinkc=0, csink=0.3, const=0, never=0, map=7, filter=1.5, hold=6, switchc=4, switchs=1.5, switchlate=2.5, switchlatec=3, mapc=1.5, merge=1,
                                       snapshot=1, lift2=0.7, accum=0.3, collect=0, once=0, gate=0.3, value=0.5, updates=1, orelse=0.5, snapshotn=0, liftn=0))
     base = [apigen.generate(rng, fan if k % 3 == 2 else prof) for k in range(n)]
     var = [variant(rng, b) for b in base]
